@@ -179,7 +179,7 @@ func init() {
 	core.Register(&core.Prop{
 		ID:    "C06",
 		Level: "exploration",
-		Rule:  "csv/csv2: every table of up to 2x2 (thorough: reduced 3x3) fields over {empty, a, ' a ', é, 世, DELIM, \", a\"b, LF, CR, CRLF, 'x,y'} written by a reference RFC-4180 encoder (minimal and forced quoting) x row terminator {LF, CRLF, none after the last row} x delimiter {, | TAB ; é ∑}, rows shorter/longer than declared, blank lines, matching and mismatching declared header (csv), replace_double_quotes, csv2 rows:2 and header/footer records with line_index/line_pattern and index gaps; fixed-length/fixedlength2: every line over {a,b,é,世,space} up to 4 (5) runes x every layout of up to 2 columns with start_pos 1..6, length 1..4 (gaps, overlaps, past the end), multi-line envelopes, and a buffer-boundary sweep with the real 4096-byte buffer (3-line envelopes with every line length 12..70 over > 3 buffers; single lines of 4090..4100 and 8190..8200 bytes with a multi-byte rune straddling the boundary); values observed through the Transform with no_trim+keep_empty_or_null and compared with reference models (RFC-4180 fields; []rune(line)[start-1:start-1+length] clipped); distinct by (schema, input); declared csv names x header cells over an alphabet with the delimiter inside; 2-/3-row envelopes x column kinds x empty lines at every position; columns on different rows with multi-byte runes",
+		Rule:  "csv/csv2: every table of up to 2x2 (thorough: reduced 3x3) fields over {empty, a, ' a ', é, 世, DELIM, \", a\"b, LF, CR, CRLF, 'x,y'} written by a reference RFC-4180 encoder (minimal and forced quoting) x row terminator {LF, CRLF, none after the last row} x delimiter {, | TAB ; é ∑}, rows shorter/longer than declared, blank lines, matching and mismatching declared header (csv), replace_double_quotes, csv2 rows:2 and header/footer records with line_index/line_pattern and index gaps; fixed-length/fixedlength2: every line over {a,b,é,世,space} up to 4 (5) runes x every layout of up to 2 columns with start_pos 1..6, length 1..4 (gaps, overlaps, past the end), multi-line envelopes, and a buffer-boundary sweep with the real 4096-byte buffer (3-line envelopes with every line length 12..70 over > 3 buffers; single lines of 4090..4100 and 8190..8200 bytes with a multi-byte rune straddling the boundary); values observed through the Transform with no_trim+keep_empty_or_null and compared with reference models (RFC-4180 fields; []rune(line)[start-1:start-1+length] clipped); distinct by (schema, input); declared csv names x header cells over an alphabet with the delimiter inside; 2-/3-row envelopes x column kinds x empty lines at every position; columns on different rows with multi-byte runes; 70 and 130 columns on a 2-row envelope; a last line of exactly 4096*k bytes without a line break",
 		Assumptions: []string{
 			"the reference encoders/slicers (about 40 lines) are trusted",
 			"a column beyond the row is absent for csv and empty for csv2, as the property allows either",
